@@ -76,6 +76,14 @@ def check_conformal(res, p, q, rng, reps, ob):
     for r in range(reps):
         wide = (r % 3 == 2)
         xs, ys = base_vec(rng, n, wide), base_vec(rng, n, wide)
+        if p >= 1 and q >= 1 and r % 4 == 1:
+            # a non-zero NULL base vector (mixed base signatures have them): a base vector like any other, up(x) = x + eo
+            i_, j_ = int(rng.integers(0, p)), p + int(rng.integers(0, q))
+            c_ = Fraction(int(rng.choice([1, -2, 3])), 2 ** int(rng.integers(0, 3)))
+            xs = [Fraction(0)] * n
+            xs[i_], xs[j_] = c_, c_ * int(rng.choice([1, -1]))
+        if r % 5 == 0:
+            ys = [Fraction(0)] * n            # the origin
         x = sum((float(c) * e for c, e in zip(xs, E[:n])), 0 * E[0]) if n else 0 * ep
         y = sum((float(c) * e for c, e in zip(ys, E[:n])), 0 * E[0]) if n else 0 * ep
         xb = base.MultiVector(np.array([0.0] + [float(c) for c in xs] + [0.0] * (base.gaDims - 1 - n))) if n else None
@@ -136,22 +144,28 @@ def check_shipped(res, rng, reps, tier):
                 res.violate(f'{name}: up(x) is not null', dict(module=name, x=[core.fstr(c) for c in xs]), None, None, dict(module=name, op='up-null'))
     import clifford.gac as gac
     import clifford.dpga as dpga
-    for _ in range(reps):
+    for rr_ in range(reps):
         a, b = base_vec(rng, 2, False)
+        if rr_ == 0:
+            a, b = Fraction(0), Fraction(0)           # the origin
         x = float(a) * gac.e1 + float(b) * gac.e2
         res.case(('gac', a, b), nontrivial=bool(a or b))
         d = gac.down(gac.up(x))
         if fr(d.value) != fr(x.value):
             res.violate('gac: down(up(x)) != x', dict(module='gac', x=[core.fstr(a), core.fstr(b)]), d.value.tolist(), x.value.tolist(), dict(module='gac', op='down-up'))
         v = [float(c) for c in base_vec(rng, 3, False)]
+        if rr_ == 0:
+            v = [0.0, 0.0, 0.0]
         res.case(('dpga', tuple(v)), nontrivial=any(v))
         d = dpga.down(dpga.up(v))
         if [core.frac(t) for t in np.asarray(d).tolist()] != [core.frac(t) for t in v]:
             res.violate('dpga: down(up(x)) != x', dict(module='dpga', x=v), np.asarray(d).tolist(), v, dict(module='dpga', op='down-up'))
     if tier == 'thorough' or True:
         import clifford.dg3c as dg3c
-        for _ in range(max(1, reps // 4)):
+        for rr_ in range(max(2, reps // 4)):
             v = [float(c) for c in base_vec(rng, 3, False)]
+            if rr_ == 0:
+                v = [0.0, 0.0, 0.0]           # the origin: up(0) = eo1 ^ eo2
             res.case(('dg3c', tuple(v)), nontrivial=any(v))
             d = dg3c.down(dg3c.up(v))
             if not approx(np.asarray(d).tolist(), [core.frac(t) for t in v], max(1, max(abs(t) for t in v)) ** 4):
